@@ -262,6 +262,14 @@ Definition builtin (f : string) (args : list value) : option ctl :=
         Some (CVal (if String.eqb ty t then VCon "Ok" [inner] else VCon "Err" [VCon "anyhow::Error" [VStr ty; inner; VStr txt]]))
     | _ => None
     end
+  (* `x.into()` where an `Option<T>` is expected (`impl Into<Option<T>>`): an Option stays, a T becomes Some *)
+  else if f =? "into_option" then
+    match args with
+    | [VCon "Some" [x]] => Some (CVal (VCon "Some" [x]))
+    | [VCon "None" []] => Some (CVal (VCon "None" []))
+    | [v] => Some (CVal (VCon "Some" [v]))
+    | _ => None
+    end
   else if f =? "push" then match args with [VArr l; v] => Some (CVal (VArr (l ++ [v]))) | _ => None end
   (* cosmwasm_std::Response: a record of four fields; the `add_*` builder methods append to their list *)
   else if f =? "Response::new" then
@@ -294,7 +302,7 @@ Definition builtin (f : string) (args : list value) : option ctl :=
 
 Definition is_builtin (f : string) : bool :=
   existsb (String.eqb f) ["len"; "is_empty"; "konst::cmp_str"; "konst::eq_str"; "into"; "to_string"; "Binary::default";
-                          "unwrap_or_default_string"; "anyhow::is"; "anyhow::downcast"; "unwrap"; "push"; "Response::new";
+                          "unwrap_or_default_string"; "anyhow::is"; "anyhow::downcast"; "unwrap"; "into_option"; "push"; "Response::new";
                           "add_submessages"; "add_attributes"; "add_events"].
 
 Definition binop (op : string) (a b : value) : option ctl :=
